@@ -185,6 +185,10 @@ func c15histories() []history {
 			out = append(out, history{2600, []round{{k, "before-truncate", 0}}}, history{2600, []round{{k, "after-truncate", 0}}})
 		}
 	}
+	// a consumer far behind (more than ten segments): nothing may be trimmed before it was handed over
+	for _, k := range []int{0, 150, 5100} {
+		out = append(out, history{6200, []round{{k, "cb-enter", 0}}}, history{6200, []round{{k, "after-persist", 600}}})
+	}
 	boundary := []int{0, 1, 2, 9, 10, 11, 499, 500, 501, 1499, 1500, 1501, 1699, 1700, 1701, 1999, 2000, 2001, 2299, 2300, 2301}
 	for _, k1 := range boundary {
 		for _, k2 := range boundary {
